@@ -787,7 +787,7 @@ def xcheck_families(tier):
         # maxchunks bounds the total number of chunks of a case: the stateless enumeration grows like the
         # multinomial coefficient of the chunk counts (two 6-chunk writers alone are 142 800 executions)
         F.append(fam('x-pairs-n3-ws', cls, 3, 2, 'ws', batch=20, maxchunks=5 if q else 7))
-        F.append(fam('x-triples-n1', cls, 1, 3, 'all', batch=20 if q else 4, maxchunks=4 if q else 6))
+        F.append(fam('x-triples-n1', cls, 1, 3, 'all', batch=20 if q else 6, maxchunks=4 if q else 5))
         F.append(fam('x-unknown-pairs-n1', cls, 1, 2, 'all', mode='unknown', batch=60, maxchunks=3 if q else 4))
         if not q:
             F.append(fam('x-late-pairs-n3-ws', cls, 3, 2, 'ws', mode='late', batch=20, maxchunks=4))
